@@ -235,6 +235,13 @@ Error BaseRAPass::run_on_function(Arena& arena, FuncNode* func, [[maybe_unused]]
     node->reset_pass_data();
   }
 
+  // A label that is not bound inside of this function (a branch target outside of it) got a block as well.
+  for (LabelNode* label_node : cc()._label_nodes) {
+    if (label_node) {
+      label_node->reset_pass_data();
+    }
+  }
+
   // Reset all core structures and everything that depends on the passed `Arena`.
   RAPass_cleanup_after_function(this);
 
